@@ -183,23 +183,25 @@ def r2_directions(ctx):
 def r3_dispatch(ctx):
     repo = ctx.repo
     pr = repo.method(result_cls(repo), 'pathresult', 'getter')
+    # compared as a decision table with the reference dispatch (gscan/casedomain.py): which dict is answered under which outcome of
+    # the tests, the dicts compared as values (one literal per arm, or built key by key), the AttributeError of a request that has
+    # no blocking_reason read as one more case
+    from ..casedomain import same_decisions
+    from .common import through_locals
     tr = [n for n in walk_no_nested(pr.node) if isinstance(n, ast.Try)]
-    ok = False
+    spec = ast.parse('''
+def spec(self):
+    try:
+        if self.path_request.blocking_reason in BLOCKING_NOPATH:
+            return {'response-id': self.path_id, 'no-path': {'no-path': self.path_request.blocking_reason}}
+        return {'response-id': self.path_id, 'no-path': {'no-path': self.path_request.blocking_reason, 'path-properties': self.path_properties}}
+    except AttributeError:
+        return {'response-id': self.path_id, 'path-properties': self.path_properties}
+''').body[0]
+    ok = len(tr) == 1 and len(tr[0].handlers) == 1 and ast.unparse(tr[0].handlers[0].type) == 'AttributeError'
     det = ''
-    if len(tr) == 1 and len(tr[0].handlers) == 1 and ast.unparse(tr[0].handlers[0].type) == 'AttributeError':
-        ifs = [n for n in tr[0].body if isinstance(n, ast.If)]
-        if len(ifs) == 1 and ast.unparse(ifs[0].test) == 'self.path_request.blocking_reason in BLOCKING_NOPATH':
-            def resp(stmts):
-                # canonical form: `return {...}` (a temporary that is only returned has been inlined)
-                d = next((s.value for s in stmts if isinstance(s, (ast.Assign, ast.Return)) and isinstance(s.value, ast.Dict)), None)
-                return ast.unparse(d).replace(' ', '').replace('\n', '') if d is not None else ''
-            # canonical form: the else arm after a returning arm is the rest of the try body
-            rest = ifs[0].orelse or tr[0].body[tr[0].body.index(ifs[0]) + 1:]
-            a, b, c = resp(ifs[0].body), resp(rest), resp(tr[0].handlers[0].body)
-            det = f'{a} | {b} | {c}'
-            ok = a == "{'response-id':self.path_id,'no-path':{'no-path':self.path_request.blocking_reason}}" and \
-                b == "{'response-id':self.path_id,'no-path':{'no-path':self.path_request.blocking_reason,'path-properties':self.path_properties}}" and \
-                c == "{'response-id':self.path_id,'path-properties':self.path_properties}"
+    if ok:
+        ok, det = same_decisions(through_locals(pr.node, local_defs(pr.node)), spec)
     ctx.check('R3.dispatch', site(pr), ok, key(pr, 'dispatch'),
               'the response is not: no route -> reason only; blocked with a candidate -> reason + its properties; served -> properties '
               '(always under the request id)', det[:300])
